@@ -11,6 +11,50 @@ fn targets() -> Vec<(&'static str, DataType)> {
          ("optional(integer)", DataType::optional(DataType::integer())), ("any", DataType::Any)]
 }
 
+
+/// the three laws on one (source type, target, sample values)
+fn laws(st: &mut Stats, a: &DataType, tn: &str, b: &DataType, vs: &[Value], k: usize) {
+        let res = catch_unwind(AssertUnwindSafe(|| {
+            let img = a.into_data_type(&b).ok()?;
+            let inj = a.inject_into(&b).ok()?;
+            let ws: Vec<Result<Value, String>> = vs.iter().map(|v| inj.value(v).map_err(|e| e.to_string())).collect();
+            Some((img, ws))
+        }));
+        st.evaluations += 1;
+        match res {
+            Err(e) => { st.bump("conversion_panicked"); st.notes.push(format!("panic converting {} into {}: {}", a, tn, panic_msg(e))); st.notes.truncate(5); }
+            Ok(None) => { st.bump("not_convertible"); }
+            Ok(Some((img, ws))) => {
+                st.distinct.insert(hash_str(&format!("{}{}{:?}", a, tn, vs.iter().map(|v| v.to_string()).collect::<Vec<_>>())));
+                st.bump(&format!("convertible_into_{}", tn));
+                for (v, w) in vs.iter().zip(ws.iter()) {
+                    if !a.contains(v) { st.bump("sample_not_in_source_type"); continue; }
+                    match w {
+                        Err(e) => st.violation(json!({"kind":"value-of-convertible-type-not-converted","source_type":a.to_string(),"target":tn,"converted_type":img.to_string(),"value":v.to_string(),"error":e,
+                            "site": if matches!(v, Value::Float(_)) && tn.contains("integer") { "Base<Float,DataType>::value" } else { "other" }})),
+                        Ok(w) => if !img.contains(w) {
+                            let negzero = matches!(v, Value::Float(f) if **f == 0.0 && f.is_sign_negative()) && tn.contains("text");
+                            st.violation(json!({"kind":"converted-value-outside-converted-type","class": if negzero { "negative-zero-into-text" } else { "other" },"source_type":a.to_string(),"target":tn,"converted_type":img.to_string(),"value":v.to_string(),"converted_value":w.to_string()}));
+                        }
+                    }
+                }
+                for i in 0..vs.len() { for j in (i + 1)..vs.len() {
+                    if let (Ok(wi), Ok(wj)) = (&ws[i], &ws[j]) {
+                        if vs[i] != vs[j] && wi == wj && a.contains(&vs[i]) && a.contains(&vs[j]) {
+                            // an integer beyond 2^53 anywhere inside the value (some(..), struct fields, list elements)
+                            let big = |v: &Value| { let s = v.to_string(); let mut cur = String::new(); let mut found = false;
+                                for c in s.chars().chain(std::iter::once(' ')) { if c.is_ascii_digit() { cur.push(c); } else { if cur.len() >= 16 { if let Ok(x) = cur.parse::<u128>() { if x > (1u128 << 53) { found = true; } } } cur.clear(); } } found };
+                            st.violation(json!({"kind":"conversion-not-injective","source_type":a.to_string(),"target":tn,"values":[vs[i].to_string(), vs[j].to_string()],"converted":wi.to_string(),
+                                "class": if tn.contains("float") && (big(&vs[i]) || big(&vs[j]) || a.to_string().contains("90071992547409") || a.to_string().contains("9223372036854775")) { "integer-above-2p53-into-float" } else { "other" }}));
+                        }
+                    }
+                }}
+                if k < 2 { st.sample(json!({"stream":"laws","source_type":a.to_string(),"target":tn,"converted_type":img.to_string(),"value":vs[0].to_string(),"converted":ws[0].as_ref().map(|w| w.to_string()).unwrap_or_else(|e| e.clone())})); }
+            }
+        }
+    
+}
+
 pub fn run(outdir: &str, seed: u64, thorough: bool) -> serde_json::Value {
     let mut rng = Rng::new(seed ^ 0xC12);
     let mut st = Stats::default();
@@ -92,43 +136,26 @@ pub fn run(outdir: &str, seed: u64, thorough: bool) -> serde_json::Value {
         let a = to_dt(&ty);
         let (tn, b) = r.pick(&tg).clone();
         let vs: Vec<Value> = (0..4).map(|_| sample(&ty, &mut r)).collect();
-        let res = catch_unwind(AssertUnwindSafe(|| {
-            let img = a.into_data_type(&b).ok()?;
-            let inj = a.inject_into(&b).ok()?;
-            let ws: Vec<Result<Value, String>> = vs.iter().map(|v| inj.value(v).map_err(|e| e.to_string())).collect();
-            Some((img, ws))
-        }));
-        st.evaluations += 1;
-        match res {
-            Err(e) => { st.bump("conversion_panicked"); st.notes.push(format!("panic converting {} into {}: {}", a, tn, panic_msg(e))); st.notes.truncate(5); }
-            Ok(None) => { st.bump("not_convertible"); }
-            Ok(Some((img, ws))) => {
-                st.distinct.insert(hash_str(&format!("{}{}{:?}", a, tn, vs.iter().map(|v| v.to_string()).collect::<Vec<_>>())));
-                st.bump(&format!("convertible_into_{}", tn));
-                for (v, w) in vs.iter().zip(ws.iter()) {
-                    if !a.contains(v) { st.bump("sample_not_in_source_type"); continue; }
-                    match w {
-                        Err(e) => st.violation(json!({"kind":"value-of-convertible-type-not-converted","source_type":a.to_string(),"target":tn,"converted_type":img.to_string(),"value":v.to_string(),"error":e,
-                            "site": if matches!(v, Value::Float(_)) && tn.contains("integer") { "Base<Float,DataType>::value" } else { "other" }})),
-                        Ok(w) => if !img.contains(w) {
-                            let negzero = matches!(v, Value::Float(f) if **f == 0.0 && f.is_sign_negative()) && tn.contains("text");
-                            st.violation(json!({"kind":"converted-value-outside-converted-type","class": if negzero { "negative-zero-into-text" } else { "other" },"source_type":a.to_string(),"target":tn,"converted_type":img.to_string(),"value":v.to_string(),"converted_value":w.to_string()}));
-                        }
-                    }
-                }
-                for i in 0..vs.len() { for j in (i + 1)..vs.len() {
-                    if let (Ok(wi), Ok(wj)) = (&ws[i], &ws[j]) {
-                        if vs[i] != vs[j] && wi == wj && a.contains(&vs[i]) && a.contains(&vs[j]) {
-                            // an integer beyond 2^53 anywhere inside the value (some(..), struct fields, list elements)
-                            let big = |v: &Value| { let s = v.to_string(); let mut cur = String::new(); let mut found = false;
-                                for c in s.chars().chain(std::iter::once(' ')) { if c.is_ascii_digit() { cur.push(c); } else { if cur.len() >= 16 { if let Ok(x) = cur.parse::<u128>() { if x > (1u128 << 53) { found = true; } } } cur.clear(); } } found };
-                            st.violation(json!({"kind":"conversion-not-injective","source_type":a.to_string(),"target":tn,"values":[vs[i].to_string(), vs[j].to_string()],"converted":wi.to_string(),
-                                "class": if tn.contains("float") && (big(&vs[i]) || big(&vs[j]) || a.to_string().contains("90071992547409") || a.to_string().contains("9223372036854775")) { "integer-above-2p53-into-float" } else { "other" }}));
-                        }
-                    }
-                }}
-                if k < 2 { st.sample(json!({"stream":"laws","source_type":a.to_string(),"target":tn,"converted_type":img.to_string(),"value":vs[0].to_string(),"converted":ws[0].as_ref().map(|w| w.to_string()).unwrap_or_else(|e| e.clone())})); }
-            }
+        laws(&mut st, &a, &tn, &b, &vs, k);
+    }
+    // temporal sources: dates, times, datetimes with sub-second parts, durations; pairs that differ in the last unit
+    {
+        use chrono::{NaiveDate, NaiveTime, Duration};
+        let text = DataType::text();
+        for k in 0..(if thorough { 4000 } else { 300 }) {
+            let mut r = rng.fork();
+            let d = NaiveDate::from_ymd_opt(1990 + r.range(0, 40) as i32, r.range(1, 12) as u32, r.range(1, 28) as u32).unwrap();
+            let ms = *r.pick(&[0u32, 1, 250, 999]);
+            let t = NaiveTime::from_hms_milli_opt(r.range(0, 23) as u32, r.range(0, 59) as u32, r.range(0, 59) as u32, ms).unwrap();
+            let t2 = t + Duration::milliseconds(*r.pick(&[1i64, 250, 1000]));
+            let (a, vs): (DataType, Vec<Value>) = match r.below(4) {
+                0 => { let x = d.and_time(t); let y = d.and_time(t2); (DataType::date_time_values([x, y]), vec![Value::date_time(x), Value::date_time(y)]) }
+                1 => { let y = d + Duration::days(1); (DataType::date_values([d, y]), vec![Value::date(d), Value::date(y)]) }
+                2 => (DataType::time_values([t, t2]), vec![Value::time(t), Value::time(t2)]),
+                _ => { let x = Duration::milliseconds(r.range(0, 5000)); let y = x + Duration::milliseconds(*r.pick(&[1i64, 1000])); (DataType::duration_values([x, y]), vec![Value::duration(x), Value::duration(y)]) }
+            };
+            st.bump("temporal_cases");
+            laws(&mut st, &a, "text", &text, &vs, k + 10);
         }
     }
     // pinned witness of the known finding C12-int-float-above-2p53 (replayed on every run)
